@@ -369,6 +369,17 @@ def tclass(m, t):
     return s + str(t.bits)
 
 
+def ckey(m, prefix, op, t1, t2):
+    """key of a binary operation: the type the operation is carried out in (that is what instruction selection looks at);
+    for && and || (no common type) the operand classes"""
+    if op in ('&&', '||'):
+        def tc(t):      # how the operand is tested against zero
+            return t.name if t.kind != 'int' else 'int%d' % t.bits
+        return '%s/%sx%s' % (prefix, tc(t1), tc(t2))
+    c = m.promote(t1) if op in ('<<', '>>') else m.uac(t1, t2)
+    return '%s/in-%s' % (prefix, tclass(m, c))
+
+
 # ---------------------------------------------------------------------------
 # S1: binary operators
 
@@ -410,7 +421,7 @@ def s1_case(m, spec, nv, extra):
     fn = '__typeof__((%s)1 %s (%s)1) f@(%s a, %s b) { return a %s b; }\n' % (t1.name, op, t2.name, t1.name, t2.name, op)
     decl = fn + tab(m, t1, 'A@', [a for a, _ in good]) + tab(m, t2, 'B@', [b for _, b in good])
     drive = 'for (int i = 0; i < %d; i++) %s(f@(%s, %s));' % (len(good), outfn(r), arg(t1, 'A@[i]'), arg(t2, 'B@[i]'))
-    key = 'S1/%s/%sx%s' % (OPNAME[op], tclass(m, t1), tclass(m, t2))
+    key = ckey(m, 'S1/' + OPNAME[op], op, t1, t2)
     return Case('S1', key, fn.replace('@', ''), decl, drive, ['a=%s b=%s' % (show(t1, a), show(t2, b)) for a, b in good],
                 filtered=filt, charty=CHAR in (t1, t2))
 
@@ -552,7 +563,7 @@ def _s2_conv(m, spec, nv, extra):
     }[k]
     decl = fn + tab(m, t1, 'A@', good)
     drive = 'for (int i = 0; i < %d; i++) %s(f@(%s));' % (len(good), outfn(t2), arg(t1, 'A@[i]'))
-    return Case('S2', 'S2/conv-%s/%s->%s' % (k, tclass(m, t1), tclass(m, t2)), fn.replace('@', ''), decl, drive,
+    return Case('S2', 'S2/conv/%s->%s' % (tclass(m, t1), tclass(m, t2)), fn.replace('@', ''), decl, drive,
                 ['a=%s' % show(t1, a) for a in good], filtered=filt, charty=CHAR in (t1, t2))
 
 
@@ -576,7 +587,7 @@ def _s2_cas(m, spec, nv, extra):
     decl = fn + tab(m, t1, 'A@', [a for a, _ in good]) + tab(m, t2, 'B@', [b for _, b in good])
     o = outfn(t1)
     drive = 'for (int i = 0; i < %d; i++) { %s q; %s(f@(%s, %s, &q)); %s(q); }' % (len(good), t1.name, o, arg(t1, 'A@[i]'), arg(t2, 'B@[i]'), o)
-    return Case('S2', 'S2/compound-%s/%s,%s' % (OPNAME[op], tclass(m, t1), tclass(m, t2)), fn.replace('@', ''), decl, drive,
+    return Case('S2', ckey(m, 'S2/compound-%s/lhs-%s' % (OPNAME[op], tclass(m, t1)), op, t1, t2), fn.replace('@', ''), decl, drive,
                 ['a=%s b=%s' % (show(t1, a), show(t2, b)) for a, b in good], lines_per=2, filtered=filt, charty=CHAR in (t1, t2))
 
 
@@ -592,7 +603,7 @@ def _s2_cond(m, spec, nv, extra):
     drive = 'for (int i = 0; i < %d; i++) { %s q1, q0; %s(f@(i & 1, %s, %s, &q1, &q0)); %s(q1); %s(q0); }' % (
         len(good), R, o, arg(t1, 'A@[i]'), arg(t2, 'B@[i]'), o, o)
     good = [(i & 1, a, b) for i, (c, a, b) in enumerate(good)]
-    return Case('S2', 'S2/conditional/%s:%s' % (tclass(m, t1), tclass(m, t2)), fn.replace('@', ''), decl, drive,
+    return Case('S2', 'S2/conditional/in-%s' % tclass(m, r), fn.replace('@', ''), decl, drive,
                 ['c=%d a=%s b=%s' % (c, show(t1, a), show(t2, b)) for c, a, b in good], lines_per=3, charty=CHAR in (t1, t2))
 
 
@@ -612,7 +623,7 @@ def _s2_parith(m, spec, nv, extra):
         fn = 'typedef %s E@;\nE@ *f@(E@ *p, %s i) { %s }\n' % (ELEMS[sz], t.name, body)
         decl = fn + 'static E@ arr@[9];\n' + tab(m, t, 'I@', idx)
         drive = 'for (int i = 0; i < %d; i++) out((unsigned long)f@(&arr@[4], I@[i]) - (unsigned long)arr@);' % len(idx)
-    return Case('S2', 'S2/ptr-arith/%s/elem%d/%s' % (form, sz, tclass(m, t)), fn.replace('@', ''), decl, drive,
+    return Case('S2', 'S2/ptr-arith/%s/index-%s' % (form, tclass(m, t)), fn.replace('@', ''), decl, drive,
                 ['p=&arr[4] i=%d' % i for i in idx], charty=t is CHAR)
 
 
@@ -784,8 +795,8 @@ def s3_case(m, spec, nv, extra):
     pad = 's.pad = G@[i]; ' if fill else ''
     padout = 'out(s.pad); ' if fill else ''
     drive = ('for (int i = 0; i < %d; i++) { struct s@ s; %ss.g = G@[i]; s.f = I@[i]; out(f@(&s, V@[i])); %sout(s.f); out(s.g); }' % (len(tup), pad, padout))
-    kop = op if not op.startswith('cas') else 'compound-' + OPNAME[op[3:]]
-    key = 'S3/%s/%s:%d' % (kop, tclass(m, t), w)
+    kop = 'compound-' + OPNAME[op[3:]] if op.startswith('cas') else 'incdec' if op in INCDEC else 'read' if op == 'arith' else op
+    key = 'S3/%s/%s%s' % (kop, tclass(m, t), '/full-width' if w == t.bits else '')
     return Case('S3', key, fn.replace('@', ''), decl, drive, ['fill=%d background=%d f=%s v=%s' % (fill, b, i, v) for b, i, v in tup],
                 lines_per=4 if fill else 3, filtered=filt, charty=t is CHAR)
 
@@ -883,7 +894,34 @@ def s4_case(tree):
     vvals = (0, 1, 2, 3) if rd.uses_v else (0,)
     tup = [(a, v) for a in avals for v in vvals]
     drive = ' '.join('f@(%d, %d); out(1000);' % t for t in tup)
-    return Case('S4', 'S4/' + shape(tree), fn.replace('@', ''), fn, drive, ['a=%d v=%d' % t for t in tup], lines_per=None)
+    return Case('S4', 'S4/' + jumps(tree), fn.replace('@', ''), fn, drive, ['a=%d v=%d' % t for t in tup], lines_per=None)
+
+
+def jumps(tree, encl=()):
+    """coarse key of a tree: the set of (jump leaf, nearest enclosing loop/switch) pairs; without jumps the set of constructs"""
+    pairs, kinds = set(), set()
+
+    def walk(t, loop, brk):
+        k = t[0]
+        if k == 'b':
+            pairs.add('break-in-' + brk)
+        elif k == 'c':
+            pairs.add('continue-in-' + loop)
+        elif k == 'r':
+            pairs.add('return-in-' + (brk or 'function'))
+        elif k == 'g':
+            pairs.add('goto-out-of-' + (brk or 'function'))
+        elif k != 'o':
+            kinds.add(k[:2] if k.startswith(('if', 'sw')) else k)
+        for s in t[1:]:
+            if k in ('wh', 'do', 'for'):
+                walk(s, k, k)
+            elif k.startswith('sw'):
+                walk(s, loop, 'switch')
+            else:
+                walk(s, loop, brk)
+    walk(tree, '', '')
+    return '+'.join(sorted(pairs)) if pairs else 'plain-' + '+'.join(sorted(kinds))
 
 
 def shape(tree):
